@@ -37,6 +37,8 @@ class Cur:
     def execute(self, sql, params=()):
         if self._shim is not None and self._shim.hook is not None and not sql.lstrip().lower().startswith('select'):
             self._shim.hook('sql-execute')
+        elif self._shim is not None and self._shim.read_hook is not None:
+            self._shim.read_hook('sqlread')
         self._c.execute(sql, tuple(_enc(p) for p in params))
         return self
 
@@ -82,9 +84,11 @@ class Shim:
     def __init__(self):
         self.conns = []
         self.hook = None        # crash harness: called before every modifying execute / commit
+        self.read_hook = None   # concurrency harness: called before every SELECT as well
 
     def connect(self, name, *a, **k):
         k.setdefault('timeout', 0.3)        # a second connection that finds the database locked fails fast instead of waiting 5 s
+        k.setdefault('check_same_thread', False)   # C14 runs each 'process' as a thread over a connection opened beforehand
         c = Conn(_real.connect(name, *a, **k), self)
         self.conns.append(c)
         return c
